@@ -491,6 +491,22 @@ def join_shapes():
         'a': T(**{'on-success': ['j1', 'j2']}),
         'b': T(**{'on-success': ['j1', 'j2']}),
         'j1': T(join='all'), 'j2': T(join='all')})
+    # an inbound task of the join that is itself fed by two parents, the
+    # first of which completes without triggering it: the join has to keep
+    # waiting for the route through the second parent
+    for tag, jkw in (('onerror', {'on-error': ['e']}),
+                     ('oncomplete', {'on-complete': ['e']}),
+                     ('bare', {})):
+        for guard_on in ('p1', 'p2'):
+            other = 'p2' if guard_on == 'p1' else 'p1'
+            P['inbound_two_parents_%s_%s' % (tag, guard_on)] = direct({
+                'p1': T(**{'on-success': [['x', ['false']]]
+                           if guard_on == 'p1' else ['x']}),
+                'p2': T(**{'on-success': [['x', ['false']]]
+                           if guard_on == 'p2' else ['x']}),
+                'x': T(**{'on-success': ['j']}),
+                'y': T(**{'on-success': ['j']}),
+                'j': T(join='all', **jkw), 'e': T()})
     P['join_defaults_on_error'] = direct(
         {'a': T(**{'on-success': ['d']}), 'b': T(**{'on-success': ['d']}),
          'd': T(join='all'), 'h': T(**{'on-error': ['noop']})},
